@@ -11,7 +11,10 @@ ASSUMPTIONS = [
     "open-order reports in this check always have something left to fill (filled in {0, q/2}); the interplay with requests/cancels/terminal reports is C01",
     "the property constrains the held TIME (greatest delivered) and that the held VALUE was delivered with that time; which of several equal-time values is kept (balance/orders: last, trade/L1: first) is modelled and corresponded but not demanded by the spec",
 ]
-SOURCE_FILES = ["barter/src/engine/state/asset/mod.rs", "barter/src/engine/state/instrument/data.rs", "barter/src/engine/state/order/mod.rs", "barter/src/engine/state/mod.rs"]
+SOURCE_FILES = ["barter/src/engine/state/asset/mod.rs", "barter/src/engine/state/instrument/data.rs", "barter/src/engine/state/order/mod.rs", "barter/src/engine/state/mod.rs",
+                "barter-execution/src/balance.rs", "barter-integration/src/snapshot.rs", "barter/src/statistic/summary/asset.rs", "barter-data/src/books/mod.rs",
+                "barter-data/src/subscription/book.rs", "barter-data/src/subscription/trade.rs", "barter-data/src/event.rs"]
+PREBUILD = [["python3", "tools/rust2lean_sm.py", "--require", "drawdown,pnl_returns,registers"]]
 CLAIM = True
 TECHNIQUE = "Lean 4: generic guarded-register lemma (fold of guarded updates holds a delivered message of maximal timestamp) by induction over delivery lists, permutation invariance via List.Perm, instantiated for balances / last trade / L1 / open orders (through the C01 refinement); correspondence through EngineState entry points"
 LEVEL_TEXT = ("Proof. lean/BarterModel/Props/C09.lean: for every finite delivery list (any order, any repetition) the register holds a message that was delivered and whose timestamp is the "
@@ -20,4 +23,5 @@ LEVEL_TEXT = ("Proof. lean/BarterModel/Props/C09.lean: for every finite delivery
               "balance_carries_max), last traded price (trade_register, trades_carry_max), top of book (l1_register, l1_carries_max) and open-order details via the C01 model "
               "(open_reports_register). Unbounded in the number of messages; the suite tests four hand-picked balance cases.")
 LEVEL_NOTE = ("Trusted: Lean kernel; axioms propext/Classical.choice/Quot.sound; hand-written register model tied to the code by sampled correspondence (400 quick / 20k random + "
-              "4x9330 exhaustive thorough). Hypotheses: L1 payload time = event time; finite prices; times after the epoch.")
+              "4x9330 exhaustive thorough). Hypotheses: L1 payload time = event time; finite prices; times after the epoch. "
+              "Additionally tied by translation: AssetState::update_from_balance and DefaultInstrumentMarketData::{price, process} (with the structs and helpers they use) are regenerated from the current source on every run by tools/rust2lean_sm.py (Generated/Machines2.lean) and proved equal to the register model for all states and messages (state_machine_agrees_with_source; Decimal::from_f64 stays an arbitrary parameter, the L1 arm carries the epoch precondition, the open-order guards of order/mod.rs are not translated); the translator and its prelude are trusted for that tie.")
